@@ -59,11 +59,30 @@ def show_time(x):
     return str(f.numerator) if f.denominator == 1 else f'{f.numerator}/{f.denominator}'
 
 
+def zoo_candidates():
+    """ zoo entries inside the composed model's scope: one SIR on the sim's clock, demographics only plain Births / Deaths on
+        the sim's clock, no interventions, no population scaling """
+    from harness import zoo, impl
+    out = []
+    for name, cfg in zoo.configs():
+        ds = cfg.get('diseases', [])
+        if len(ds) != 1 or ds[0]['type'] != 'sir' or any(k in ds[0] for k in impl.TIME_KEYS) or isinstance(ds[0].get('beta'), dict): continue
+        if cfg.get('interventions') or cfg.get('pop_scale') or cfg.get('total_pop') or cfg.get('own_people'): continue
+        if any(d['type'] not in ('births', 'deaths') or any(k in d for k in impl.TIME_KEYS) or 'death_table' in d for d in cfg.get('demographics', [])): continue
+        if any(any(k in n for k in impl.TIME_KEYS) or n['type'] == 'agepools' for n in cfg.get('networks', [])): continue
+        out.append(dict(name='zoo:' + name, zoo=name, seed=cfg.get('rand_seed', 1)))
+    return out
+
+
 def record(cfg):
     """ run the real simulation with the event sources wrapped; return (initial agents, events per step, sim) """
     import starsim as ss
     np.random.seed(cfg['seed'])
-    sim = build(cfg)
+    if cfg.get('zoo'):
+        from harness import zoo, impl
+        sim = impl.build_sim(zoo.configs(names=[cfg['zoo']])[0][1])
+    else:
+        sim = build(cfg)
     sim.init()
     sir = sim.diseases[0]
     ppl = sim.people
@@ -223,7 +242,8 @@ def run_cfg(ctx, cfg):
 def correspond(ctx):
     order = ctx.drive(DRIVER, ['order'])
     ctx.notes['simcore_schedule'] = order[0][3:] if order else None
-    cfgs = [dict(c) for c in FIXED] + [gen_cfg(ctx.rng, k) for k in range(ctx.budget(3, 20))]
+    cfgs = [dict(c) for c in FIXED] + [gen_cfg(ctx.rng, k) for k in range(ctx.budget(3, 20))] + zoo_candidates()
+    ctx.notes['simcore_zoo_entries'] = [c['zoo'] for c in cfgs if c.get('zoo')]
     tot = dict(steps=0, agents=0, infections=0, background=0, births=0, late=0)
     for cfg in cfgs:
         try:
@@ -234,7 +254,7 @@ def correspond(ctx):
             continue
         for k in tot: tot[k] += stats[k]
         ctx.count('simcore_runs')
-        ctx.case(('simcore', tuple(sorted(cfg.items()))), stats['infections'] > 0, sample=dict(kind='simcore-run', cfg=cfg, **stats))
+        ctx.case(('simcore', tuple(sorted((k, str(v)) for k, v in cfg.items()))), stats['infections'] > 0, sample=dict(kind='simcore-run', cfg=cfg, **stats))
         if diffs:
             ctx.broke('correspondence', 'C13.simcore', f"[{cfg['name']}] the composed step model (Model/SimCore.lean) and the simulation differ: " + '; '.join(diffs[:4]),
                       data=dict(kind='simcore', cfg=cfg, diffs=diffs[:8]))
